@@ -80,6 +80,8 @@ var pinnedCases = []pinnedCase{
 	{"C02", "select-count-marker", `return select("#x",1,2)`, "2", nil},
 	{"C20", "not-found-message-format", `package.path="./?.lua" local ok,msg=pcall(require,"zzz") return ok,(msg:match("module.*$"):gsub("\n\t",";"))`, "false|module 'zzz' not found:;no field package.preload['zzz'];no file './zzz.lua'", nil},
 	// seventh batch
+	{"C15", "string-position-minus-2^63", `return ("abc"):sub(-2^63), ("abc"):sub(-math.huge), (("abc"):find("b", -2^63)), (("abc"):byte(-2^63)), ("abc"):sub(-2^63, -2^63), ("abc"):byte(-2^63, -1)`, "abc|abc|2|nil||97|98|99", nil},
+	{"C15", "random-argument-count", `math.randomseed(1) local a = math.random(1, 2) return pcall(math.random, 1, 2, 3), a >= 1 and a <= 2, pcall(math.random, 2, 1)`, "false|true|false", nil},
 	{"C17", "getlocal-needs-a-positive-number", `local function f(a, b) local c = 3 return debug.getlocal(1, 0), debug.getlocal(1, -1), debug.setlocal(1, 0, "v"), debug.setlocal(1, -2, "v"), (debug.getlocal(1, 1)), a, b, c end local outer = "o" return f(1, 2)`, "nil|nil|nil|nil|a|1|2|3", nil},
 	{"C15", "format-missing-argument", `return pcall(string.format, "%s"), pcall(string.format, "%s %s", "a"), pcall(string.format, "%q"), pcall(string.format, "%d")`, "false|false|false|false", nil},
 	{"C15", "format-invalid-directive", `return pcall(string.format, "%y", 1), pcall(string.format, "%", 1), pcall(string.format, "%ld", 1), pcall(string.format, "%123d", 1), pcall(string.format, "%.123f", 1), pcall(string.format, "%-+ #0-d", 1), (string.format("%5.2f|%-5d|%+d|%%", 1.5, 3, 4))`, "false|false|false|false|false|false| 1.50|3    |+4|%", nil},
@@ -596,6 +598,19 @@ func requireHistories(r *harness.Run) {
 		}
 	}
 	setPath := lua1(fmt.Sprintf("package.path = %q", filepath.Join(dir, "?.lua")), "")
+	register := func(name string, fns ...string) step {
+		return func(L *lua.LState) string {
+			funcs := map[string]lua.LGFunction{}
+			for _, fn := range fns {
+				fn := fn
+				funcs[fn] = func(L *lua.LState) int { L.Push(lua.LString(name + "." + fn)); return 1 }
+			}
+			if _, ok := L.RegisterModule(name, funcs).(*lua.LTable); !ok {
+				return "RegisterModule(" + name + ") did not return a table"
+			}
+			return ""
+		}
+	}
 	cases := []struct {
 		name  string
 		steps []step
@@ -607,6 +622,9 @@ func requireHistories(r *harness.Run) {
 		{"non-string-package.path-then-restored", []step{setPath, writeFile("late.lua", `return "late"`), lua1(`local p = package.path package.path = 5 local ok = pcall(require, "late") package.path = p return ok, package.loaded.late == nil, require "late"`, "false|true|late")}},
 		{"raising-searcher-then-removed", []step{lua1(`table.insert(package.loaders, 1, function(n) if n == "boom" and not allow then error("searcher fails") end end) local ok = pcall(require, "boom") allow = true package.preload.boom = function() return "ok-now" end return ok, package.loaded.boom == nil, require "boom"`, "false|true|ok-now")}},
 		{"non-table-package.preload-then-restored", []step{lua1(`local p = package.preload package.preload = 7 local ok = pcall(require, "pp") package.preload = p p.pp = function() return "pp" end return ok, package.loaded.pp == nil, require "pp"`, "false|true|pp")}},
+		{"register-module-twice-adds-functions", []step{register("hm", "f"), register("hm", "g"), lua1(`return hm.f(), hm.g(), require("hm") == hm, package.loaded.hm == hm`, "hm.f|hm.g|true|true")}},
+		{"register-module-into-a-table-lua-put-in-package.loaded", []step{lua1(`package.loaded.lm = {own = "kept"}`, ""), register("lm", "f"), lua1(`return lm == nil, package.loaded.lm.f(), package.loaded.lm.own, require("lm") == package.loaded.lm`, "true|lm.f|kept|true")}},
+		{"register-module-then-require-then-register-again", []step{register("rm", "a"), lua1(`local m = require "rm" return m.a()`, "rm.a"), register("rm", "b"), lua1(`return require("rm").b(), rm.a()`, "rm.b|rm.a")}},
 		{"missing-module-twice-then-provided", []step{lua1(`local a = pcall(require, "later") local b = pcall(require, "later") package.preload.later = function() return "there" end return a, b, require "later"`, "false|false|there")}},
 	}
 	for _, c := range cases {
